@@ -83,7 +83,8 @@ class Ctx:
             self.transitions += r["generated"]
             self.tlc_runs.append(dict(name=j["name"], states=r["states"], generated=r["generated"],
                                       wall=round(r["wall"], 1), timed_out=r["timed_out"],
-                                      violated=r["violated"], constants=j["consts"]))
+                                      violated=r["violated"], constants=j["consts"],
+                                      **({"vacuity_guard_expected_to_violate": "C05_NoStuck"} if j.get("guard") else {})))
         return res
 
     def add_violation(self, v):
